@@ -89,10 +89,11 @@ Section Nodes6.
                  node_writes H sc zero_hash (prefix_em p em') ++ p_ws r')
           with ((ws1 ++ node_writes H sc h em) ++ ((if stale then [WAcct h (slim_rlp H acc')] else []) ++
                  node_writes H sc zero_hash (prefix_em p em')) ++ p_ws r') by (rewrite <- !app_assoc; reflexivity).
-        rewrite !nws_app, nws_nodes.
         assert (N3 : nws (if stale then [WAcct h (slim_rlp H acc')] else []) = []) by (destruct stale; reflexivity).
-        rewrite N3. cbn [app].
-        unfold prefix_em at 2. rewrite map_app. fold (prefix_em p em'). fold (prefix_em p EA). rewrite nk_app.
+        rewrite (nws_app (ws1 ++ node_writes H sc h em)), (nws_app (_ ++ node_writes H sc zero_hash (prefix_em p em'))),
+                (nws_app (if stale then _ else _)), N3, nws_nodes. cbn [app].
+        assert (Epre : prefix_em p (em' ++ EA) = prefix_em p em' ++ prefix_em p EA) by (unfold prefix_em; apply map_app).
+        rewrite Epre, nk_app.
         (* PSt : storage nodes of h;  PN : the rest *)
         eapply Permutation_trans; [apply Permutation_app; [exact PSt|apply Permutation_app_head; exact PN]|].
         unfold snodes at 1. cbn [fst].
